@@ -2999,9 +2999,12 @@ class sptensor:
                 self.shape,
             )
         if isinstance(other, ttb.tensor):
-            csubs = self.subs
+            if self.nnz == 0:
+                return self.copy()
             cvals = self.vals * self._vals_of(other)
-            return ttb.sptensor(csubs, cvals, self.shape)
+            # Products with a zero of the dense tensor are not stored
+            keep = cvals[:, 0] != 0
+            return ttb.sptensor(self.subs[keep], cvals[keep], self.shape)
         if isinstance(other, ttb.ktensor):
             csubs = self.subs
             cvals = np.zeros(self.vals.shape)
